@@ -284,6 +284,26 @@ def run(chk):
             chk.violation('impl-vs-spec', {'parser': 'XPath1Parser', 'expr': expr, 'document': '<r a="1"><n>42</n><n>-1.5</n><s>abc</s><e/><m> 7 </m>text</r>'},
                           {'impl': repr(got)[:200], 'libxml2': repr(want)[:200]})
         chk.nontrivial.add('xp1sweep:' + expr)
+    # ---- lang() (core library, the language of the nearest ancestor-or-self xml:lang, sublanguages, case): XPath 1.0 and 3.1 against libxml2
+    from elementpath.xpath31 import XPath31Parser as _P31l
+    lroot3 = LE.fromstring('<r a="1" xml:lang="en-US"><b>u</b><c xml:lang="fr"><d/></c><e xml:lang="de-x-y"><f xml:lang=""><g/></f></e></r>')
+    for t in ['en', 'EN', 'en-us', 'en-US', 'en-u', 'fr', 'FR', 'de', 'de-x', 'de-x-y', 'de-x-y-z', 'd', '', 'e']:
+        for expr in (f"//*[lang('{t}')]", f"count(//@a[lang('{t}')])", f"count(//text()[lang('{t}')])"):
+            want = lroot3.xpath(expr)
+            want = [x.tag for x in want] if isinstance(want, list) else float(want)
+            for P in (XPath1Parser, _P31l):
+                chk.evaluations += 1
+                chk.count('lang-libxml2')
+                try:
+                    got = select(lroot3, expr, parser=P)
+                    got = [x.tag for x in got] if isinstance(got, list) else float(got)
+                except ElementPathError as ex:
+                    got = 'error ' + str(ex.code)
+                except Exception as ex:
+                    got = 'exception ' + type(ex).__name__
+                if got != want:
+                    chk.violation('impl-vs-spec', {'parser': P.__name__, 'expr': expr}, {'impl': repr(got)[:200], 'libxml2': repr(want)[:200]})
+            chk.nontrivial.add('lang:' + expr)
     # round trip codepoints-to-string(string-to-codepoints(s)) = s and string-length in code points
     for _ in range(100 if quick else 5000):
         s = rstr(8, 'ab\U0001F600é́\t')
